@@ -515,7 +515,15 @@ func (a *auth) powerLevelRules(ev *Ev) (bool, string) {
 		for k := range m {
 			if !seen[k] {
 				seen[k] = true
-				pairs = append(pairs, pair{old.eventLevel(k, false), np.eventLevel(k, false), "events"})
+				// the entries of the events map themselves are compared (D11 is about what it takes to send a
+				// third-party-invite event, not about who may rewrite its map entry)
+				raw := func(p PL) int64 {
+					if l, ok := p.Events[k]; ok {
+						return l
+					}
+					return p.EventsDefault
+				}
+				pairs = append(pairs, pair{raw(old), raw(np), "events"})
 			}
 		}
 	}
